@@ -8,7 +8,7 @@ JUSTIFIED = {
     'assert_eq|deflate::DeflateStream::new|#1':
         'documented panic of the safe constructor on an invalid configuration',
     'assert_eq|deflate::deflate|bi_buf not flushed':
-        "numeric invariant inherited from zlib's Assert(); listed, not proved (value-range reasoning is outside static reach)",
+        "reached only with wrap > 0, i.e. right after this call wrote the trailer through flush_pending (GUARD/finished-early-return; D21 reached it on a finished stream)",
     'assert_eq|inflate::InflateStream::new|#1':
         'documented panic of the safe constructor on an invalid configuration',
     "assert_eq|inflate::bitreader::BitReader<'_> as std::io::Read>::read|bit buffer not cleared before read":
@@ -50,7 +50,7 @@ JUSTIFIED = {
     'assert|deflate::gen_codes|inconsistent bit counts':
         "numeric invariant inherited from zlib's Assert(); listed, not proved (value-range reasoning is outside static reach)",
     'assert|deflate::pending::Pending::extend|buf.len() must fit in remaining()':
-        'pending-buffer sizing invariant (pending_buf_size covers the largest block); D1 reached extend through a stale read offset, fixed',
+        'pending-buffer sizing invariant (pending_buf_size covers the largest block); D1 reached extend through a stale read offset, D16 through deflatePrime without a room test (GUARD/prime-room), both fixed',
     'assert|deflate::pending::Pending::rewind|rewinding past then start':
         'pending-buffer sizing invariant (pending_buf_size covers the largest block); D1 reached extend through a stale read offset, fixed',
     'assert|deflate::send_all_trees|not enough codes':
@@ -67,10 +67,6 @@ JUSTIFIED = {
         'window lengths are fixed at init (power of two, or power of two + padding)',
     'assert|inflate::window::Window::size|#1':
         'window lengths are fixed at init (power of two, or power of two + padding)',
-    'expect|inflate::State::dispatch|comm out of bounds':
-        'length only grows by min(len, max - length), so length <= *_max (C20 GUARD)',
-    'expect|inflate::State::dispatch|name out of bounds':
-        'length only grows by min(len, max - length), so length <= *_max (C20 GUARD)',
     'expect|inflate::writer::Writer::copy_chunked_within|in bounds':
         'callers pass offset <= filled after the `dist > written` split',
     'panic|ReturnCode as core::convert::From<i32>>::from|#1':
